@@ -19,12 +19,12 @@ def expectedSwitch : List (List Nat) :=
 /-- What each clause does, as summarised by the extractor (calls, buffer offsets read, fields written,
     token types produced, fallthrough) — the behaviour `Model/AspLex.lean` transcribes. -/
 def expectedSummaries : List String :=
-  ["type:EOF", "call:nextToken",
-   "call:fail call:nextToken field:indent= field:indents= field:pos++ field:unindents++ read:+0 type:EOL",
+  ["type:EOF", "continue",
+   "call:fail continue field:indent= field:indents= field:pos++ field:unindents++ read:+0 type:EOL",
    "call:consumeInteger fallthrough field:pos++ read:+0", "call:consumeInteger",
    "call:consumePossiblyTripleQuotedString", "field:braces++ type:literal", "field:braces-- type:literal",
    "fallthrough field:pos++ read:+0 read:-1 type:LexOperator", "type:literal",
-   "field:pos++ read:+0 read:-1 type:LexOperator type:literal", "call:nextToken field:pos++ read:+0",
+   "field:pos++ read:+0 read:-1 type:LexOperator type:literal", "continue field:pos++ read:+0",
    "call:consumeInteger read:+0 type:literal", "call:fail", "call:fail"]
 
 /-- What every grammar function of grammar_parse.go does, as summarised by the extractor: the calls on the
@@ -84,6 +84,9 @@ def FactsOK : Bool :=
   decide (C19.maxPosJump ≤ 2) &&
   C19.tokenTypes == ["EOF", "Ident", "Int", "String", "LexOperator", "EOL", "Unindent"] &&
   -- the switch the model transcribes
+  -- (the body is one `for { … }`: skipped input `continue`s — the repair of lexer-recursion-stack-overflow; each
+  --  iteration is what a self-call was, and the model keeps that as its recursion)
+  C19.nextTokenShape == "loop" &&
   C19.switchCases == expectedSwitch && C19.switchSummaries == expectedSummaries && C19.switchHasDefault &&
   (C19.openBraces ++ C19.closeBraces ++ C19.eqOps ++ C19.singles).all (fun c => !fixedBytes.contains c && c < 128) &&
   -- every panic is a positioned `fail`: the only other panic is dead code behind a switch all of whose
